@@ -84,7 +84,7 @@ def guarded_on_paths(body, cfg, du, bb):
     return n > 0
 
 
-def r1(cx):
+def r1(cx, rule="C04.R1"):
     nfun = 0; nwrites = 0
     by_path = {}
     for body in cx.mir.bodies():
@@ -117,16 +117,16 @@ def r1(cx):
         cx.saw(body); nfun += 1
         fkey = "%s:%s" % (body.pkg, body.path)
         if fkey in ALLOWED_RAW_WRITERS:
-            cx.note("C04.R1", fkey, body.sp, "allow-listed raw writer: " + ALLOWED_RAW_WRITERS[fkey]); continue
+            cx.note(rule, fkey, body.sp, "allow-listed raw writer: " + ALLOWED_RAW_WRITERS[fkey]); continue
         for i, t in enumerate(writes):
             nwrites += 1
             key = "%s:%s#%d" % (fkey, t.callee.name, sum(1 for x in writes[:i] if x.callee.name == t.callee.name))
             site = "%s %s" % (t.sp, body.path)
             ok, why = site_guarded(body, t.bb)
-            cx.check(ok, "C04.R1", key, site, "this write to Call.writer can execute for a oneway request: %s" % (why or "a path reaches it without passing the is_oneway()==false edge, or the ==true edge still reaches it"),
+            cx.check(ok, rule, key, site, "this write to Call.writer can execute for a oneway request: %s" % (why or "a path reaches it without passing the is_oneway()==false edge, or the ==true edge still reaches it"),
                      note_ok="only reachable for non-oneway requests", witness={"write": t.sp})
-    cx.floor("C04.R1", "functions writing to Call.writer", nfun, 2)
-    cx.floor("C04.R1", "protocol writes examined", nwrites, 2)
+    cx.floor(rule, "functions writing to Call.writer", nfun, 2)
+    cx.floor(rule, "protocol writes examined", nwrites, 2)
 
 
 def _flag_form_match(body, field):
